@@ -5,7 +5,7 @@
    unification of chunk-local codes). *)
 From Coq Require Import List ZArith Bool Sorting.Permutation.
 From GL Require Import Lib.Arr Model.Factorize Model.GroupByApi Spec.RowSpec
-  Proofs.FactorizeProofs Proofs.CombineProofs Proofs.MonoProofs Proofs.IndexerProofs Proofs.SelectProofs Proofs.ChunkedKeys.
+  Proofs.FactorizeProofs Proofs.CombineProofs Proofs.MonoProofs Proofs.IndexerProofs Proofs.GenTie Gen.FactorizeGen Proofs.SelectProofs Proofs.ChunkedKeys.
 Import ListNotations.
 Open Scope Z_scope.
 
@@ -16,6 +16,11 @@ Theorem C02_null_iff_any_component_null codes weights :
   (weight_code_sum codes weights = -1 <-> In (-1) codes).
 Proof. exact (weight_code_sum_null codes weights). Qed.
 Print Assumptions C02_null_iff_any_component_null.
+
+(* 1a. Tie B: the mixed-radix kernel regenerated from /repo's factorization.py on this run is the model *)
+Theorem C02_weight_code_sum_is_the_source's codes weights : g_weight_code_sum codes weights = weight_code_sum codes weights.
+Proof. exact (tie_weight_code_sum codes weights). Qed.
+Print Assumptions C02_weight_code_sum_is_the_source's.
 
 (* 1b. several keys, THE statement: with the weights of factorize_2d (products of the later
    cardinalities) the combination is a faithful first-appearance factorization of the code tuples:
